@@ -61,6 +61,47 @@ return 4
 			NParams: map[string]int{"§_F0": 1},
 		},
 		{
+			Kind: "corpus", Key: "var-decl-shadow-self",
+			Note: "`var x T = f(x)` in an inner scope: Go evaluates the initialiser with the outer x, the compiler allocates the new x first",
+			Plain: `func §_F0(x int) int {
+r := 0
+{
+var x int = x + 1
+r = x
+}
+return r + x
+}
+`,
+			Entries: []*Entry{{Name: "§_F0", Params: []Kind{KInt}, Ret: KInt, Tuples: ints(0, 1, 5)}},
+			NParams: map[string]int{"§_F0": 1},
+		},
+		{
+			Kind: "corpus", Key: "recover-stale-stack",
+			Note: "a panic recovered by a deferred call while operands are on the evaluation stack leaves them there",
+			Plain: `func ¶_rec() {
+if r := recover(); r != nil {
+}
+}
+func ¶_thrower(x int) int {
+if x > 0 {
+panic("boom")
+}
+return x
+}
+func ¶_h(x int) int {
+defer ¶_rec()
+y := 5 + ¶_thrower(x)
+return y
+}
+func §_F0(x int) int {
+z := ¶_h(x) * 2
+return z
+}
+`,
+			Entries: []*Entry{{Name: "§_F0", Params: []Kind{KInt}, Ret: KInt, Tuples: ints(0, 1, 2)}},
+			NParams: map[string]int{"§_F0": 1, "¶_h": 1, "¶_thrower": 1, "¶_rec": 0},
+		},
+		{
 			Kind: "corpus", Key: "recover-runtime-error",
 			Note: "a Go run-time error (division by zero) is recoverable in Go and an uncatchable FAULT in NeoVM",
 			Plain: `var g¶_r = 0
